@@ -231,7 +231,7 @@ PROPS = {
         "props_file": "Props/C19.v",
         "run_module": "Model.Graph Model.Walk Model.RunC15 Model.RunC02 Model.RunC14 Model.Prune Model.RunC17 Model.Builder Model.RunC01 Model.RunC19",
         "run_fn": "run_c19",
-        "pinned_theorems": ["C19_known_roots_identity", "C19_incremental_no_pending", "C19_root_context_refuted"],
+        "pinned_theorems": ["C19_known_roots_identity", "C19_incremental_no_pending", "C19_root_context_refuted", "C19_stale_upgrade_refuted"],
         "rule": ("histories on C01 worlds (default dynamic options, 2-4 plain roots): 50% an ordered partition of the "
                  "roots into 2-3 successive builds vs. all roots at once; 10% a rebuild with the same roots vs. the "
                  "graph before it; 40% 1-2 source edits (add/remove a dependency, module disappears, module becomes "
